@@ -22,8 +22,6 @@ const (
 	idRHFilter = "C01-rangeheap-drops-index-filter"
 	idRHType   = "C01-rangeheap-mixed-type-compare"
 	idHashDec  = "C01-hashjoin-decimal-scale-key"
-	// finding of this property
-	idNegZero = "C05-hashin-negative-zero"
 )
 
 func and(l, r gen.Expr) gen.Expr {
